@@ -435,6 +435,18 @@ def rule_bdd1(prog, tier):
     # --- negation ----------------------------------------------------------
     for ci in (nt, tt):
         f = prog.method(ci, '__invert__')
+        # the recursion may live in a module-level helper both classes
+        # delegate to: its self-calls are the induction hypothesis as well
+        rec_names = {'__invert__'}
+        bm = f.module
+        for n in ast.walk(f.node):
+            if isinstance(n, ast.Call) and isinstance(n.func, ast.Name) and \
+                    n.func.id in bm.funcs:
+                g = bm.funcs[n.func.id]
+                if any(isinstance(m, ast.Call) and
+                       isinstance(m.func, ast.Name) and m.func.id == g.name
+                       for m in ast.walk(g.node)):
+                    rec_names.add(g.name)
         I = Interp(prog, _StepHooks(prog, f, set()), rule='R-BDD-1')
         path = I.new_path()
         S = Sym('self', ('inst', ci))
@@ -445,7 +457,7 @@ def rule_bdd1(prog, tier):
             if (d[0] == 'N') != (ci is nt):
                 continue
             nm += 1
-            ev = BEval({S: d}, classes, {'__invert__'})
+            ev = BEval({S: d}, classes, rec_names)
             want = tuple(not x for x in truth(d, order, None))
             msg = _check_step(res, ev, I, order,
                               lambda n, e, o: not _val(n[2], e, o, None),
@@ -560,6 +572,7 @@ def rule_bdd2(prog, found):
         ok = True
         why = ''
         nret = 0
+        store_keys, hit_keys = set(), set()
         for (p, v) in res:
             if isinstance(v, Raise):
                 continue
@@ -584,14 +597,27 @@ def rule_bdd2(prog, found):
                     continue
                 keys_w = _keys(App('item', e.target, e.args[0]))
                 if calls and isinstance(e.args[1], App) and \
-                        e.args[1].op == 'call' and keys_w != keys_r:
-                    ok = False
-                    why = 'stores under %r but returns %r' % (keys_w, keys_r)
-            if not calls and keys_r and nkey == 2:
-                # hit: keys must be the operands in the order of a store
-                pass
+                        e.args[1].op == 'call':
+                    store_keys.add(keys_w)
+                    if keys_r and keys_w != keys_r:
+                        # the result is read back from the table
+                        ok = False
+                        why = 'stores under %r but returns %r' % (keys_w,
+                                                                  keys_r)
+                    elif not keys_r and v != e.args[1]:
+                        ok = False
+                        why = 'stores %r but returns %r' % (e.args[1], v)
+            if not calls and keys_r:
+                # hit: read with the keys a miss stores under
+                hit_keys.add(keys_r)
+        if ok and store_keys and hit_keys and store_keys != hit_keys:
+            ok = False
+            why = 'a miss stores under %r but a hit reads %r' % (
+                sorted(map(repr, store_keys)), sorted(map(repr, hit_keys)))
         r.inst(wrapper=w.short(), step=st.short(), consistent=ok,
-               returning_paths=nret)
+               returning_paths=nret,
+               stored_under=sorted(map(repr, store_keys)),
+               hits_read=sorted(map(repr, hit_keys)))
         if ok and nret:
             r.ok()
         else:
